@@ -32,7 +32,7 @@ func NewFeatureRemote(id uint, entity api.EntityRemoteInterface, ftype model.Fea
 		entity:          entity,
 		functionDataMap: make(map[model.FunctionType]api.FunctionDataInterface),
 	}
-	for _, fd := range CreateFunctionData[api.FunctionDataInterface](ftype) {
+	for _, fd := range functionDataForFeatureType[api.FunctionDataInterface](ftype) {
 		res.functionDataMap[fd.FunctionType()] = fd
 	}
 
